@@ -22,9 +22,12 @@ Theorem C02_phonetic_backspace :
 Proof. exact p_backspace_ok. Qed.
 
 (** ... where the composition is the raw typed text that survives: a function of the events alone (characters of the
-    keys appended, one removed per backspace, emptied by ctrl-backspace, commit and finish), for every state. *)
+    keys appended, one removed per backspace, emptied by ctrl-backspace, commit and finish), for every state - except that a
+    backspace returning an EMPTY suggestion (what is left displays as nothing) empties it, so an empty suggestion always
+    means the word is gone. *)
 Theorem C02_composition_is_surviving_text :
-  forall (Q : oracles) c s e c' s' o, p_step Q c s e = Some (c', s', o) -> p_buf s' = compose_step (p_buf s) e.
+  forall (Q : oracles) c s e c' s' o, p_step Q c s e = Some (c', s', o) ->
+    p_buf s' = compose_step (p_buf s) e \/ (e = PBackspace false /\ out_empty o = true /\ p_buf s' = []).
 Proof. exact buffer_is_composition. Qed.
 
 (** Fixed method: the candidate list is never empty, the auxiliary text is the composed text, the index is 0 < length;
